@@ -1076,6 +1076,14 @@ pub fn srawi(
     let block_index = {
         let block = control_flow_graph.new_block()?;
 
+        // CA <- the source is negative and a 1-bit is shifted out
+        let shift = detail.operands[2].imm() as u64 & 0x1f;
+        let shifted_out = Expression::and(lhs.clone(), expr_const((1u64 << shift) - 1, 32))?;
+        let carry = Expression::and(
+            Expression::cmplts(lhs.clone(), expr_const(0, 32))?,
+            Expression::cmpneq(shifted_out, expr_const(0, 32))?,
+        )?;
+        block.assign(scalar("carry", 1), carry);
         block.assign(dst, Expression::sra(lhs, rhs)?);
 
         block.index()
